@@ -1,7 +1,817 @@
 package rhprenter
 
-import "verif/harness/mon"
+import (
+	"context"
+	"encoding/json"
+	"fmt"
+	"os"
+	"strings"
+	"time"
+
+	"go.sia.tech/core/consensus"
+	rhp4 "go.sia.tech/core/rhp/v4"
+	"go.sia.tech/core/types"
+	rhp "go.sia.tech/coreutils/rhp/v4"
+
+	"verif/harness/lab/rhpmitm"
+	"verif/harness/mon"
+	"verif/harness/vcli"
+)
+
+// c16Case is the fully expanded case written to replay files.
+type c16Case struct {
+	RPC    string   `json:"rpc"`
+	Fault  mutation `json:"fault"`  // Op "none": clean attempt; "dial-fail": stream cannot be opened
+	Basis  string   `json:"basis"`  // same | behind:k | fork:k | fork-known:k
+	Inputs string   `json:"inputs"` // confirmed | unconfirmed
+	Phase  string   `json:"phase"`  // abort | corrupt | storm | clean-after-storm
+}
+
+func (c c16Case) sig() string {
+	return fmt.Sprintf("%s/%s/%s/%s/%s", c.RPC, c.Phase, c.Fault.String(), c.Basis, c.Inputs)
+}
+
+// faultPoint is the short stable name of a fault location used in violation
+// signatures (no field paths: those go into the replay case).
+func (c c16Case) faultPoint() string {
+	switch {
+	case c.Fault.Op == "none" || c.Fault.Op == "dial-fail":
+		return c.Fault.Op
+	case c.Fault.Path != "":
+		return fmt.Sprintf("corrupt-%s%d", c.Fault.Dir, c.Fault.Msg)
+	default:
+		return fmt.Sprintf("%s-%s%d", c.Fault.Op, c.Fault.Dir, c.Fault.Msg)
+	}
+}
+
+// c16Lab is one two-node lab dedicated to one RPC.
+type c16Lab struct {
+	r    *mon.Run
+	l    *rhpmitm.Lab
+	rpc  string
+	pool *sparePool // contracts to renew / refresh
+	kit  renewalKit
+	dead bool
+	only *c16Case
+	k    int
+	last string
+}
+
+type econ struct{ host, renter types.Currency }
+
+// econSnap is the total wealth (confirmed + immature) of both wallets; only
+// meaningful while both pools are empty.
+func (x *c16Lab) econSnap() (econ, error) {
+	hb, err := x.l.HostWallet.W.Balance()
+	if err != nil {
+		return econ{}, err
+	}
+	rb, err := x.l.RentWallet.W.Balance()
+	if err != nil {
+		return econ{}, err
+	}
+	return econ{hb.Confirmed.Add(hb.Immature), rb.Confirmed.Add(rb.Immature)}, nil
+}
+
+func (x *c16Lab) fail(where string, err error) {
+	harnessFail(x.r, "C16 "+x.rpc+" "+where+" (previous case "+x.last+")", err)
+	x.dead = true
+}
+
+// sweep moves every spendable renter output into one unconfirmed output, so
+// that the next funding has to use an unconfirmed input with a parent.
+func (x *c16Lab) sweep() (types.Currency, error) {
+	w := x.l.RentWallet.W
+	outs, err := w.SpendableOutputs()
+	if err != nil {
+		return types.ZeroCurrency, err
+	}
+	var sum types.Currency
+	for _, o := range outs {
+		sum = sum.Add(o.SiacoinOutput.Value)
+	}
+	fee := w.RecommendedFee().Mul64(2000)
+	if len(outs) == 0 || sum.Cmp(fee) <= 0 {
+		return types.ZeroCurrency, fmt.Errorf("%w: nothing to sweep", rhpmitm.ErrHarness)
+	}
+	txn := types.V2Transaction{MinerFee: fee, SiacoinOutputs: []types.SiacoinOutput{{Address: w.Address(), Value: sum.Sub(fee)}}}
+	basis, toSign, err := w.FundV2Transaction(&txn, sum, false)
+	if err != nil {
+		return types.ZeroCurrency, fmt.Errorf("%w: sweep funding: %v", rhpmitm.ErrHarness, err)
+	}
+	w.SignV2Inputs(&txn, toSign)
+	if _, err := x.l.RenterNode.CM.AddV2PoolTransactions(basis, []types.V2Transaction{txn}); err != nil {
+		w.ReleaseInputs(nil, []types.V2Transaction{txn})
+		return types.ZeroCurrency, fmt.Errorf("%w: sweep rejected: %v", rhpmitm.ErrHarness, err)
+	}
+	return fee, nil
+}
+
+// attemptResult is what one monitored formation / renewal returned.
+type attemptResult struct {
+	Contract rhp.ContractRevision
+	Set      rhp.TransactionSet
+}
+
+// expectation is what the renter computes locally for the attempt.
+type expectation struct {
+	contract   types.V2FileContract // without signatures
+	id         func(res attemptResult) types.FileContractID
+	costs      func(cs consensus.State, fee types.Currency) (renter, host types.Currency)
+	finalRent  types.Currency // paid out to the renter by the renewal
+	finalHost  types.Currency
+	existingID *types.FileContractID
+}
+
+func (x *c16Lab) prepareCall(existing *rhp.ContractRevision) (func(ctx context.Context) (any, error), expectation) {
+	l := x.l
+	x.k++
+	k := x.k % 7
+	if x.rpc == "form" {
+		params := formationParams(l, k)
+		fc, _ := rhp4.NewContract(l.Prices, params, l.HostKey.PublicKey(), l.HostAddr)
+		exp := expectation{contract: fc,
+			costs: func(cs consensus.State, fee types.Currency) (types.Currency, types.Currency) {
+				return rhp4.ContractCost(cs, fc, fee)
+			}}
+		return func(ctx context.Context) (any, error) {
+			res, err := rhp.RPCFormContract(ctx, l.T, l.RenterNode.CM, l.Signer, l.RenterNode.CM.TipState(), l.Prices, l.HostKey.PublicKey(), l.HostAddr, params)
+			return attemptResult{res.Contract, res.FormationSet}, err
+		}, exp
+	}
+	renewal := x.kit.local(l, *existing, k)
+	exp := expectation{contract: renewal.NewContract, finalRent: renewal.FinalRenterOutput.Value, finalHost: renewal.FinalHostOutput.Value, existingID: &existing.ID}
+	if x.rpc == "renew" {
+		exp.costs = func(cs consensus.State, fee types.Currency) (types.Currency, types.Currency) {
+			return rhp4.RenewalCost(cs, renewal, fee)
+		}
+	} else {
+		exp.costs = func(cs consensus.State, fee types.Currency) (types.Currency, types.Currency) {
+			return rhp4.RefreshCost(cs, l.Prices, renewal, fee)
+		}
+	}
+	ex := *existing
+	return func(ctx context.Context) (any, error) {
+		c, set, err := x.kit.call(ctx, l, ex, k)
+		return attemptResult{c, set}, err
+	}, exp
+}
+
+// reservedNotReleased lists the inputs a wallet funded during the attempt and
+// did not release afterwards, according to the recording proxy.
+func reservedNotReleased(w *rhpmitm.Wallet) []types.SiacoinOutputID {
+	held := map[types.SiacoinOutputID]bool{}
+	var order []types.SiacoinOutputID
+	for _, c := range w.Calls() {
+		switch c.Op {
+		case "FundV2Transaction":
+			if c.Err == "" {
+				for _, id := range c.Inputs {
+					if !held[id] {
+						order = append(order, id)
+					}
+					held[id] = true
+				}
+			}
+		case "ReleaseInputs":
+			for _, id := range c.Inputs {
+				held[id] = false
+			}
+		}
+	}
+	var out []types.SiacoinOutputID
+	for _, id := range order {
+		if held[id] {
+			out = append(out, id)
+		}
+	}
+	return out
+}
+
+func forceRelease(w *rhpmitm.Wallet, ids []types.SiacoinOutputID) {
+	if len(ids) == 0 {
+		return
+	}
+	var txn types.V2Transaction
+	for _, id := range ids {
+		txn.SiacoinInputs = append(txn.SiacoinInputs, types.V2SiacoinInput{Parent: types.SiacoinElement{ID: id}})
+	}
+	w.W.ReleaseInputs(nil, []types.V2Transaction{txn})
+}
+
+// chainDiffs collects the v2 contract element diffs of the blocks applied on
+// the host node after index.
+func chainDiffs(l *rhpmitm.Lab, since types.ChainIndex) (map[types.FileContractID][]consensus.V2FileContractElementDiff, error) {
+	out := make(map[types.FileContractID][]consensus.V2FileContractElementDiff)
+	for {
+		reverted, applied, err := l.HostNode.CM.UpdatesSince(since, 100)
+		if err != nil {
+			return nil, err
+		}
+		if len(reverted) > 0 {
+			return nil, fmt.Errorf("%w: unexpected revert while confirming", rhpmitm.ErrHarness)
+		}
+		if len(applied) == 0 {
+			return out, nil
+		}
+		for _, cau := range applied {
+			for _, d := range cau.V2FileContractElementDiffs() {
+				out[d.V2FileContractElement.ID] = append(out[d.V2FileContractElement.ID], d)
+			}
+			since = cau.State.Index
+		}
+	}
+}
+
+// attempt runs one case end to end. noCleanup skips the confirming block (used
+// inside abort storms, where nothing may be left to confirm anyway).
+func (x *c16Lab) attempt(cse c16Case, noCleanup bool) (succeeded bool) {
+	if x.dead {
+		return false
+	}
+	if x.only != nil && x.only.sig() != cse.sig() {
+		return false
+	}
+	l, r := x.l, x.r
+	defer func() { x.last = cse.sig() }()
+	// signature = class : rpc : cause, where the cause is the basis relation if
+	// there is one (the same root cause shows at every fault point then) and the
+	// fault point otherwise
+	cause := cse.faultPoint()
+	if i := strings.IndexByte(cse.Basis, ':'); i >= 0 && cse.Fault.Op != "dial-fail" {
+		cause = "basis-" + cse.Basis[:i]
+	}
+	viol := func(class, what string, detail any) {
+		r.Violation(fmt.Sprintf("%s:%s:%s", class, x.rpc, cause), what, cse, detail)
+	}
+
+	if err := l.RefreshPrices(); err != nil {
+		x.fail("settings", err)
+		return
+	}
+	var existing *rhp.ContractRevision
+	if x.rpc != "form" {
+		c, err := x.pool.take()
+		if err != nil {
+			x.fail("spare contract", err)
+			return
+		}
+		existing = &c
+	}
+	e0, err := x.econSnap()
+	if err != nil {
+		x.fail("econ", err)
+		return
+	}
+
+	// ---- basis relation ----
+	var hostOnly, fork []types.Block
+	kind, depth := cse.Basis, 0
+	if i := strings.IndexByte(cse.Basis, ':'); i >= 0 {
+		kind = cse.Basis[:i]
+		fmt.Sscanf(cse.Basis[i+1:], "%d", &depth)
+	}
+	switch kind {
+	case "behind":
+		if hostOnly, err = l.HostNode.MineTo(types.VoidAddress, depth); err != nil {
+			x.fail("mine", err)
+			return
+		}
+	case "fork", "fork-known":
+		if fork, err = l.RenterNode.MineTo(types.VoidAddress, depth); err != nil {
+			x.fail("mine fork", err)
+			return
+		}
+		if hostOnly, err = l.HostNode.MineTo(types.VoidAddress, depth+1); err != nil {
+			x.fail("mine", err)
+			return
+		}
+		if kind == "fork-known" {
+			if err := l.HostNode.AddBlocks(fork); err != nil {
+				x.fail("relay fork to host", err)
+				return
+			}
+		}
+	}
+	if kind != "same" {
+		r.Count("basis_relation:"+kind, 1)
+	}
+
+	// ---- renter inputs ----
+	sweepFee := types.ZeroCurrency
+	if cse.Inputs == "unconfirmed" {
+		if sweepFee, err = x.sweep(); err != nil {
+			x.fail("sweep", err)
+			return
+		}
+	}
+
+	call, exp := x.prepareCall(existing)
+
+	hostPre, err1 := l.HostWallet.Snapshot()
+	rentPre, err2 := l.RentWallet.Snapshot()
+	if err1 != nil || err2 != nil {
+		x.fail("snapshot", fmt.Errorf("%v %v", err1, err2))
+		return
+	}
+	l.HostWallet.ResetCalls()
+	l.RentWallet.ResetCalls()
+	l.Contractor.ResetEvents()
+
+	// ---- the attempt ----
+	ap := &applied{}
+	var emittedR1 bool
+	var fee types.Currency
+	var renterInputsUnconfirmed bool
+	ap.extraFun = func(m *rhpmitm.Msg) {
+		if m.Dir != rhpmitm.RenterToHost {
+			return
+		}
+		ap.mu.Lock()
+		defer ap.mu.Unlock()
+		if m.Index == 1 {
+			emittedR1 = true
+		}
+		if m.Index == 0 {
+			switch o := m.Obj.(type) {
+			case *rhp4.RPCFormContractRequest:
+				fee, renterInputsUnconfirmed = o.MinerFee, len(o.RenterParents) > 0
+			case *rhp4.RPCRenewContractRequest:
+				fee, renterInputsUnconfirmed = o.MinerFee, len(o.RenterParents) > 0
+			case *rhp4.RPCRefreshContractRequest:
+				fee, renterInputsUnconfirmed = o.MinerFee, len(o.RenterParents) > 0
+			}
+		}
+	}
+	switch cse.Fault.Op {
+	case "none":
+		l.T.SetHook(faultHook(nil, nil, nil, ap))
+	case "dial-fail":
+		l.T.SetHook(faultHook(nil, nil, nil, ap))
+		l.T.FailNextDials(1)
+	default:
+		l.T.SetHook(faultHook([]mutation{cse.Fault}, nil, nil, ap))
+	}
+	out := monitoredCall(callDeadline, call)
+	l.T.SetHook(nil)
+	l.T.FailNextDials(0)
+	r.Eval()
+	r.Count("attempts:"+x.rpc, 1)
+	if out.Hung {
+		viol("hang", "client call did not return within its context deadline plus slack", out.Duration.String())
+		x.dead = true
+		return
+	}
+	if err := l.Barrier(); err != nil {
+		x.fail("barrier", err)
+		return
+	}
+	ap.mu.Lock()
+	hit, changed := ap.Hit, ap.Changed
+	sawR1, feeSeen, unconf := emittedR1, fee, renterInputsUnconfirmed
+	ap.mu.Unlock()
+	if cse.Fault.Op == "none" || cse.Fault.Op == "dial-fail" || changed > 0 {
+		r.Distinct(cse.sig())
+	} else if hit == 0 {
+		r.Count("fault_site_not_reached", 1)
+	} else {
+		r.Count("faults_without_wire_change", 1)
+	}
+	r.SetAdd("fault_points", x.rpc+":"+cse.faultPoint())
+	if cse.Inputs == "unconfirmed" && unconf {
+		r.Count("attempts_funded_with_unconfirmed_parent", 1)
+	}
+	if out.Panic != nil {
+		viol("client-panic", fmt.Sprintf("client call panicked: %v", out.Panic), fmt.Sprint(out.Panic))
+	}
+
+	var committed *rhpmitm.ContractEvent
+	for _, ev := range l.Contractor.Events() {
+		if ev.Err == nil {
+			ev := ev
+			committed = &ev
+		}
+	}
+	res, _ := out.Res.(attemptResult)
+	ok := out.Err == nil && out.Panic == nil
+	if os.Getenv("VERIF_DEBUG") != "" {
+		fmt.Printf("DEBUG %s -> err=%v committed=%v\n", cse.sig(), out.Err, committed != nil)
+	}
+	hostLeak, rentLeak := reservedNotReleased(l.HostWallet), reservedNotReleased(l.RentWallet)
+	cs := l.HostNode.CM.TipState()
+	sigsValid := func(fc types.V2FileContract) bool {
+		h := cs.ContractSigHash(fc)
+		return l.HostKey.PublicKey().VerifyHash(h, fc.HostSignature) && l.RenterKey.PublicKey().VerifyHash(h, fc.RenterSignature)
+	}
+
+	switch {
+	case ok:
+		succeeded = true
+		r.Count("renter_success", 1)
+		r.Count("renter_success:"+kind+":"+cse.Inputs, 1)
+		switch {
+		case committed == nil:
+			viol("success-without-host-contract", "the renter's call succeeded but the host recorded no contract", nil)
+		case !sigsValid(res.Contract.Revision):
+			viol("success-contract-signatures-invalid", "the contract returned by the successful call is not validly signed by both parties (host stored a different object)", map[string]any{"renter": res.Contract, "host_id": committed.ID, "host": committed.Contract})
+		case committed.ID != res.Contract.ID || committed.Contract != res.Contract.Revision:
+			viol("success-contract-differs-from-host", "the contract the renter's call returned is not the contract the host stored", map[string]any{"renter": res.Contract, "host_id": committed.ID, "host": committed.Contract})
+		case sansSigs(res.Contract.Revision) != sansSigs(exp.contract):
+			viol("success-contract-not-as-agreed", "the returned contract differs from the contract the renter asked for", map[string]any{"returned": res.Contract.Revision, "agreed": exp.contract})
+		}
+		if committed != nil {
+			if st, err := l.Contractor.State(committed.ID); err != nil || st.Revision != committed.Contract {
+				viol("host-state-differs-from-commit", "the host's contract state differs from what it committed", fmt.Sprint(err))
+			}
+		}
+		if _, err := l.HostNode.CM.AddV2PoolTransactions(res.Set.Basis, res.Set.Transactions); err != nil {
+			viol("success-set-rejected-by-pool", "the transaction set returned by the successful call is not accepted by the transaction pool: "+err.Error(), map[string]any{"basis": res.Set.Basis, "transactions": len(res.Set.Transactions)})
+		}
+	case committed != nil:
+		r.Count("host_committed_but_renter_saw_failure", 1)
+		if !sawR1 {
+			viol("host-commit-without-renter-signatures", "the host recorded a contract although the renter never sent its signatures", committed.ID)
+		}
+		if !sigsValid(committed.Contract) {
+			viol("host-commit-signatures-invalid", "the host recorded a contract that is not validly signed by both parties", committed.Contract)
+		}
+		if sansSigs(committed.Contract) != sansSigs(exp.contract) {
+			viol("host-commit-not-as-agreed", "the host recorded a contract that differs from the one the renter signed", map[string]any{"host": committed.Contract, "agreed": exp.contract})
+		}
+	default:
+		r.Count("failed_without_trace_expected", 1)
+		hostPost, err1 := l.HostWallet.Snapshot()
+		rentPost, err2 := l.RentWallet.Snapshot()
+		if err1 != nil || err2 != nil {
+			x.fail("snapshot", fmt.Errorf("%v %v", err1, err2))
+			return
+		}
+		if !hostPost.Equal(hostPre) || len(hostLeak) > 0 {
+			viol("host-inputs-not-released", "after a failed attempt the host wallet's spendable set differs from before / funded inputs were never released", map[string]any{"before": hostPre, "after": hostPost, "reserved_not_released": hostLeak, "calls": l.HostWallet.Calls()})
+		}
+		if !rentPost.Equal(rentPre) || len(rentLeak) > 0 {
+			viol("renter-inputs-not-released", "after a failed attempt the renter wallet's spendable set differs from before / funded inputs were never released", map[string]any{"before": rentPre, "after": rentPost, "reserved_not_released": rentLeak, "calls": l.RentWallet.Calls(), "error": fmt.Sprint(out.Err)})
+		}
+		if len(hostLeak) > 0 || len(rentLeak) > 0 {
+			r.Count("reservation_leaks_observed", 1)
+		}
+	}
+	if x.rpc != "form" && committed == nil {
+		x.pool.giveBack(*existing)
+	}
+	if noCleanup && committed == nil {
+		return
+	}
+	// independent cases: whatever leaked is released by force
+	if committed == nil {
+		forceRelease(l.HostWallet, hostLeak)
+		forceRelease(l.RentWallet, rentLeak)
+	}
+
+	// ---- re-converge, confirm, observe the chain ----
+	if l.RenterNode != l.HostNode {
+		if err := l.RenterNode.AddBlocks(hostOnly); err != nil {
+			x.fail("re-converge", err)
+			return
+		}
+		if l.RenterNode.CM.Tip() != l.HostNode.CM.Tip() {
+			x.fail("re-converge", fmt.Errorf("tips differ: host %v renter %v", l.HostNode.CM.Tip(), l.RenterNode.CM.Tip()))
+			return
+		}
+		if txns := l.RenterNode.CM.V2PoolTransactions(); len(txns) > 0 {
+			l.HostNode.CM.AddV2PoolTransactions(l.RenterNode.CM.Tip(), txns)
+		}
+	}
+	before := l.HostNode.CM.Tip()
+	for i := 0; i < 3 && (i == 0 || len(l.HostNode.CM.V2PoolTransactions()) > 0 || len(l.RenterNode.CM.V2PoolTransactions()) > 0); i++ {
+		if err := l.Mine(types.VoidAddress, 1); err != nil {
+			x.fail("confirm", err)
+			return
+		}
+	}
+	diffs, err := chainDiffs(l, before)
+	if err != nil {
+		x.fail("chain diffs", err)
+		return
+	}
+	if committed != nil {
+		found := false
+		for _, d := range diffs[committed.ID] {
+			if d.Created && d.V2FileContractElement.V2FileContract == committed.Contract {
+				found = true
+			}
+		}
+		if found {
+			r.Count("contracts_observed_on_chain", 1)
+		} else {
+			viol("contract-not-confirmed", "after mining, the chain holds no v2 contract element with the committed id and exactly the committed contract", map[string]any{"id": committed.ID, "diffs": len(diffs[committed.ID])})
+		}
+		if exp.existingID != nil {
+			resolved := false
+			for _, d := range diffs[*exp.existingID] {
+				if _, ok := d.Resolution.(*types.V2FileContractRenewal); ok {
+					resolved = true
+				}
+			}
+			if !resolved {
+				viol("renewal-not-confirmed", "after mining, the existing contract was not resolved by a renewal", *exp.existingID)
+			}
+		}
+	} else {
+		for id, ds := range diffs {
+			for _, d := range ds {
+				if d.Created || d.Resolution != nil {
+					viol("contract-on-chain-after-failure", "a contract was created / resolved on chain although the attempt failed without the host recording it", id)
+				}
+			}
+		}
+	}
+	if len(l.HostNode.CM.V2PoolTransactions()) > 0 || len(l.RenterNode.CM.V2PoolTransactions()) > 0 {
+		r.Count("pool_not_drained_after_case", 1)
+		return
+	}
+	defer x.releaseAll()
+	e1, err := x.econSnap()
+	if err != nil {
+		x.fail("econ", err)
+		return
+	}
+	wantRent, wantHost := sweepFee, types.ZeroCurrency
+	var gainRent, gainHost types.Currency
+	if committed != nil {
+		rc, hc := exp.costs(cs, feeSeen)
+		wantRent, wantHost = wantRent.Add(rc), wantHost.Add(hc)
+		gainRent, gainHost = exp.finalRent, exp.finalHost
+	}
+	// before + gain == after + paid
+	if e0.renter.Add(gainRent) != e1.renter.Add(wantRent) {
+		viol("renter-paid-wrong-amount", "the renter wallet's wealth changed by an amount different from its computed share", map[string]any{"before": e0.renter, "after": e1.renter, "expected_cost": wantRent, "expected_payout": gainRent})
+	}
+	if e0.host.Add(gainHost) != e1.host.Add(wantHost) {
+		viol("host-paid-wrong-amount", "the host wallet's wealth changed by an amount different from its computed share", map[string]any{"before": e0.host, "after": e1.host, "expected_cost": wantHost, "expected_payout": gainHost})
+	}
+	r.Count("economic_checks", 1)
+	if hb, err := l.HostWallet.W.Balance(); err == nil && hb.Spendable != hb.Confirmed && len(hostLeak) == 0 {
+		viol("host-wallet-locked-after-confirmation", "with an empty pool the host wallet still holds reserved outputs", hb)
+	}
+	return
+}
+
+// ---- tables ----
+
+var c16AbortPoints = []mutation{
+	{Op: "none"},
+	{Op: "dial-fail"},
+	{Dir: "R", Msg: 0, Op: "cut"},
+	{Dir: "R", Msg: 0, Op: "cut-after"},
+	{Dir: "H", Msg: 0, Op: "cut"},
+	{Dir: "H", Msg: 0, Op: "cut-after"},
+	{Dir: "H", Msg: 0, Op: "rpcerror"},
+	{Dir: "R", Msg: 1, Op: "cut"},
+	{Dir: "R", Msg: 1, Op: "cut-after"},
+	{Dir: "H", Msg: 1, Op: "cut"},
+	{Dir: "H", Msg: 1, Op: "cut-after"},
+	{Dir: "H", Msg: 1, Op: "rpcerror"},
+	{Dir: "H", Msg: 1, Op: "trunc-wire"},
+	{Dir: "R", Msg: 0, Op: "trunc-wire"},
+}
+
+func c16Ops(kind string) []string {
+	switch kind {
+	case "bytes":
+		return []string{"flip0", "zero"}
+	case "currency", "uint":
+		return []string{"flip0", "max"}
+	case "bool":
+		return []string{"flip"}
+	case "string":
+		return []string{"extend"}
+	case "time":
+		return []string{"dec", "zero"}
+	case "byteslice":
+		return []string{"extend", "flip0"}
+	case "slice":
+		return []string{"trunc", "dup"}
+	case "ptr":
+		return []string{"nil"}
+	case "restype":
+		return []string{"retype"}
+	}
+	return nil
+}
+
+func (x *c16Lab) corruptTable() []mutation {
+	// record one clean exchange to learn the message shapes
+	rec := newRecorded()
+	var existing *rhp.ContractRevision
+	if x.rpc != "form" {
+		c, err := x.pool.take()
+		if err != nil {
+			x.fail("spare contract", err)
+			return nil
+		}
+		existing = &c
+	}
+	call, _ := x.prepareCall(existing)
+	x.l.T.SetHook(recordHook(rec))
+	out := monitoredCall(callDeadline, call)
+	x.l.T.SetHook(nil)
+	if err := x.l.Barrier(); err != nil || out.Err != nil || out.Hung || out.Panic != nil {
+		x.fail("recording exchange", fmt.Errorf("%v %v", err, out.Err))
+		return nil
+	}
+	if err := x.l.Mine(types.VoidAddress, 1); err != nil {
+		x.fail("mine", err)
+		return nil
+	}
+	var out2 []mutation
+	for _, d := range []rhpmitm.Dir{rhpmitm.RenterToHost, rhpmitm.HostToRenter} {
+		for i := 0; i < 2; i++ {
+			m := rec.get(d, i)
+			if m == nil || m.Obj == nil {
+				continue
+			}
+			for _, leaf := range rhpmitm.Enumerate(m.Obj) {
+				for _, op := range c16Ops(leaf.Kind) {
+					out2 = append(out2, mutation{Dir: d.String(), Msg: i, Path: leaf.Path, Kind: leaf.Kind, Op: op})
+				}
+			}
+			out2 = append(out2, mutation{Dir: d.String(), Msg: i, Op: "extend-wire"})
+		}
+	}
+	return out2
+}
+
+func newC16Lab(r *mon.Run, rpc string, stream uint64, only *c16Case) (*c16Lab, error) {
+	x := &c16Lab{r: r, rpc: rpc, only: only}
+	f := &family{r: r, rng: r.RNG(stream)}
+	if rpc == "form" {
+		l, err := rhpmitm.NewLab(rhpmitm.Options{TwoNodes: true, HostBlocks: 24, RenterBlocks: 12})
+		if err != nil {
+			return nil, err
+		}
+		x.l = l
+		return x, nil
+	}
+	pool, err := newSparePoolOpt(f, 6, rhpmitm.Options{TwoNodes: true, HostBlocks: 30, RenterBlocks: 12})
+	if err != nil {
+		return nil, err
+	}
+	x.l, x.pool, x.kit = pool.l, pool, kitFor(rpc)
+	return x, nil
+}
+
+// storm runs n consecutive aborted attempts at one abort point without
+// confirming anything in between, then demands that a clean attempt succeeds.
+func (x *c16Lab) storm(point mutation, n int) {
+	cse := c16Case{RPC: x.rpc, Fault: mutation{Op: "none"}, Basis: "same", Inputs: "confirmed", Phase: "clean-after-storm:" + point.String()}
+	if x.only != nil {
+		// a replay of any case of a storm re-runs the whole storm
+		if !(x.only.Phase == cse.Phase || (x.only.Phase == "storm" && x.only.Fault == point)) {
+			return
+		}
+		saved := x.only
+		x.only = nil
+		defer func() { x.only = saved }()
+	}
+	for i := 0; i < n && !x.dead; i++ {
+		x.attempt(c16Case{RPC: x.rpc, Fault: point, Basis: "same", Inputs: "confirmed", Phase: "storm"}, true)
+	}
+	if x.dead {
+		return
+	}
+	okClean := x.attempt(cse, false)
+	x.r.Count("abort_storms", 1)
+	if !okClean && !x.dead {
+		pt := c16Case{Fault: point}.faultPoint()
+		x.r.Violation(fmt.Sprintf("clean-attempt-fails-after-aborts:%s:%s", x.rpc, pt), fmt.Sprintf("after %d consecutive aborted attempts a clean attempt no longer succeeds", n), cse, map[string]any{"renter_calls": x.l.RentWallet.Calls(), "host_calls": x.l.HostWallet.Calls()})
+	}
+	// release whatever the storm leaked so that later cases are independent
+	x.releaseAll()
+}
+
+// releaseAll force-releases every output of both wallets.
+func (x *c16Lab) releaseAll() {
+	for _, w := range []*rhpmitm.Wallet{x.l.HostWallet, x.l.RentWallet} {
+		_, utxos, err := w.Store.UnspentSiacoinElements()
+		if err != nil {
+			continue
+		}
+		var ids []types.SiacoinOutputID
+		for _, u := range utxos {
+			ids = append(ids, u.ID)
+		}
+		forceRelease(w, ids)
+	}
+}
 
 func runC16(r *mon.Run, replay string) {
-	r.Inconclusive("not implemented yet")
+	r.Rule("fault table = RPC {form, renew, refresh-full, refresh-partial} x abort point {clean, stream cannot be opened, cut before/after the request, cut before/after the host inputs, injected RPCError, cut before/after the renter signatures, cut before/after / truncated final response} x basis relation {same tip, renter 1..3 blocks behind, renter on a stale fork of depth 1..3 unknown to / known by the host} x renter inputs {confirmed, one unconfirmed output with its parent}; plus every field of every message in both directions (reflection walk) x two operators at the same tip; plus storms of 20 consecutive aborts at one abort point followed by a clean attempt. Two chain managers (host, renter) are kept in sync by the lab except where the basis relation says otherwise. Enumerated completely; a case is non-trivial when it is a clean/abort case or its corruption changed the wire bytes.")
+	r.Assume("core consensus and rhp/v4 cost functions are trusted; the in-repo EphemeralContractor/WalletStore are the host's and wallets' stores")
+	r.Assume("a failure seen by the renter after its signatures reached the host may legitimately coincide with a host-side commit (the final response cannot be made atomic); it is then checked as a host-side success")
+	r.Extra("exhaustive", true)
+	r.Extra("exhaustive_over", "the enumerated table (RPC x abort point x basis relation x input kind) and (RPC x message x field x operator) for the recorded message shapes")
+
+	var only *c16Case
+	if replay != "" {
+		buf, err := os.ReadFile(replay)
+		if err != nil {
+			r.Inconclusive("cannot read replay file: " + err.Error())
+			return
+		}
+		var w struct {
+			Case c16Case `json:"case"`
+		}
+		if err := json.Unmarshal(buf, &w); err != nil || w.Case.RPC == "" {
+			r.Inconclusive("cannot parse replay file")
+			return
+		}
+		only = &w.Case
+	}
+
+	rpcs := []string{"form", "renew", "refresh-full", "refresh-partial"}
+	bases := []string{"same", "behind:1", "behind:2", "behind:3", "fork:1", "fork:2", "fork:3", "fork-known:1", "fork-known:2", "fork-known:3"}
+	type job struct {
+		rpc  string
+		part string
+	}
+	var jobs []job
+	for _, rpc := range rpcs {
+		for _, part := range []string{"abort-same", "abort-basis-a", "abort-basis-b", "corrupt-R", "corrupt-H", "storm"} {
+			if only != nil && only.RPC != rpc {
+				continue
+			}
+			if flt := os.Getenv("VERIF_C16_JOBS"); flt != "" && !strings.Contains(flt, rpc+":"+part) {
+				continue // development aid: run a subset of the jobs
+			}
+			jobs = append(jobs, job{rpc, part})
+		}
+	}
+	vcli.Parallel(len(jobs), func(i int) {
+		j := jobs[i]
+		t0 := time.Now()
+		x, err := newC16Lab(r, j.rpc, uint64(2000+i), only)
+		if err != nil {
+			harnessFail(r, "C16 lab "+j.rpc, err)
+			return
+		}
+		defer x.l.Close()
+		switch j.part {
+		case "abort-same", "abort-basis-a", "abort-basis-b":
+			for bi, basis := range bases {
+				switch j.part {
+				case "abort-same":
+					if basis != "same" {
+						continue
+					}
+				case "abort-basis-a":
+					if basis == "same" || bi%2 == 0 {
+						continue
+					}
+				case "abort-basis-b":
+					if basis == "same" || bi%2 == 1 {
+						continue
+					}
+				}
+				for _, inputs := range []string{"confirmed", "unconfirmed"} {
+					for _, p := range c16AbortPoints {
+						if basis != "same" && !r.Thorough() && (p.Op == "trunc-wire" || (p.Op == "cut-after" && p.Dir == "H" && p.Msg == 1)) {
+							continue
+						}
+						x.attempt(c16Case{RPC: j.rpc, Fault: p, Basis: basis, Inputs: inputs, Phase: "abort"}, false)
+					}
+				}
+			}
+		case "corrupt-R", "corrupt-H":
+			dir := j.part[len(j.part)-1:]
+			for _, mu := range x.corruptTable() {
+				if mu.Dir != dir {
+					continue
+				}
+				x.attempt(c16Case{RPC: j.rpc, Fault: mu, Basis: "same", Inputs: "confirmed", Phase: "corrupt"}, false)
+			}
+		case "storm":
+			for _, p := range c16AbortPoints {
+				// only abort points at which the renter's signatures cannot
+				// have reached the host: the attempt must leave no trace
+				if p.Op == "none" || p.Op == "trunc-wire" || (p.Msg == 1 && !(p.Dir == "R" && p.Op == "cut")) {
+					continue
+				}
+				x.storm(p, 20)
+			}
+		}
+		r.Extra(fmt.Sprintf("job_wall_s:%s:%s", j.rpc, j.part), time.Since(t0).Seconds())
+	})
+	if only == nil {
+		r.Floor("renter_success", 100)
+		r.Floor("failed_without_trace_expected", 500)
+		r.Floor("host_committed_but_renter_saw_failure", 20)
+		r.Floor("contracts_observed_on_chain", 100)
+		r.Floor("economic_checks", 500)
+		r.Floor("abort_storms", 20)
+		r.Floor("attempts_funded_with_unconfirmed_parent", 50)
+		r.Floor("basis_relation:behind", 50)
+		r.Floor("basis_relation:fork", 50)
+		r.Floor("basis_relation:fork-known", 50)
+	}
 }
